@@ -12,7 +12,7 @@ CHECKS = {
    design="6 C01"),
  "C02": dict(
    text="Bounded exhaustive symbolic check against executable definitions: for every real-valued signal up to the length bound (every tie pattern of samples and ranges is a path) find_turns equals the turning-point definition, the four-point detector equals the textbook stack rule (cycles in order with indices, residual), the three-point detector yields the same multiset and residual, the FKM detector equals the Clormann/Seeger HCM rule; every turning point is used exactly once and every index addresses its value.",
-   note="Bound: signal length 2..6 (quick) / 2..8 (thorough), process() without flush. Oracles in pvx/oracles/rainflow.py are part of the trusted base. Floats as reals; kernels via translation + witness replay on a module compiled from the current .pyx.",
+   note="Bound: signal length 2..6 (quick) / 2..9 (thorough), process() without flush. Oracles in pvx/oracles/rainflow.py are part of the trusted base. Floats as reals; kernels via translation + witness replay on a module compiled from the current .pyx.",
    design="6 C02"),
  "C03": dict(
    text="Bounded exhaustive symbolic check of relations between runs of the real detectors: refinement by interior non-reversal samples (values symbolic between neighbours, inclusive), negation, positive affine map (symbolic offset, scale from a finite set), NaN removal with index correction (all interior NaN placements up to the bound), Series with five index types vs. plain array.",
